@@ -11,6 +11,8 @@ from checks import arithcommon as A
 from checks import expsubscommon as E
 
 OBLIGATIONS = [
+    "C11/P_subs_sound.v",
+    "C11/P_guarded_refines.v",
     "C11/P_cache_irrelevant.v",
     "C11/P_visitor_kinds.v",
     "C11/P_nonvacuous.v",
@@ -161,6 +163,7 @@ def run(ctx):
     ctx.cov["cases_no_key_occurs"] = stats.get("absent", 0)
     ctx.cov["cases_keys_consistent"] = stats.get("consistent", 0)
     ctx.cov["cases_single_pow_key"] = stats.get("single_pow_key", 0)
+    ctx.cov["cases_satisfying_subs_guard"] = stats.get("subs_guard", 0)
     ctx.cov["cases_by_kind"] = stats.get("kinds", {})
     ctx.cov["rule"] = ("cases (visitor kind, expression recipe, map of 1..3 pairs): a fixed corpus (every bvisit of XReplaceVisitor on the arithmetic "
                        "fragment, the Pow special case of SubsVisitor, complex numbers with I as a key, number keys, term keys `2*x`, swaps, the un-flattened "
@@ -252,18 +255,20 @@ def explore(ctx, drv, model, cases, stats, search=False):
             if not E.is_exn(r) and E.canon_dump(r) != E.canon_dump(edump):
                 stats.setdefault("nontrivial", set()).add((kind, edump, tuple(kv)))
             if cache == "1":
-                fq.append("sflags ;; %s%s" % (edump, "".join(" ;; " + x for x in kv)))
+                fq.append("sflags ;; %s ;; %s%s" % (kind, edump, "".join(" ;; " + x for x in kv)))
             if not search and len(ctx.cov["samples"]) < 6 and len(r) < 300 and E.canon_dump(r) != E.canon_dump(edump):
                 ctx.cov["samples"].append({"case": line, "cache": cache, "result": r, "model": mout[:300]})
     fo = ctx.run_lines(model, fq, timeout=2400, shards=16)
     for f in fo:
-        if len(f) == 3:
+        if len(f) == 4:
             if f[0] == "0":
                 stats["absent"] = stats.get("absent", 0) + 1
             if f[1] == "1":
                 stats["consistent"] = stats.get("consistent", 0) + 1
             if f[2] == "1":
                 stats["single_pow_key"] = stats.get("single_pow_key", 0) + 1
+            if f[3] == "1":
+                stats["subs_guard"] = stats.get("subs_guard", 0) + 1
 
 
 def replay(ctx, rep):
